@@ -28,7 +28,7 @@ FLOORS = {"quick": {"fault_points_raised": 4000, "snapshots_compared": 4000, "fi
           "thorough": {"fault_points_raised": 150000, "snapshots_compared": 150000, "final_compared": 150000}}
 CASE_TIMEOUT_S = 600
 
-NATURAL = ["add_shape", "bad_index", "bad_axis", "bad_reshape", "setitem_shape", "aug_shape", "readonly_target", "out_arr_shape", "out_tensor_shape",
+NATURAL = ["setitem_bad_index", "add_shape", "bad_index", "bad_axis", "bad_reshape", "setitem_shape", "aug_shape", "readonly_target", "out_arr_shape", "out_tensor_shape",
            "where_shape", "bad_dtype", "int_constant_false", "setshape_bad", "einsum_mismatch", "concat_mismatch", "matmul_mismatch"]
 INJECTED = [("inj_op", "before"), ("inj_op", "after"), ("inj_view", "before"), ("inj_view", "after"), ("inj_setitem", "before"),
             ("inj_setitem", "after"), ("inj_aug", "before"), ("inj_aug", "after"), ("inj_out", "before"), ("inj_out", "after")]
@@ -60,6 +60,9 @@ def fault_stmt(kind, t, shape, rng, mode=None):
         return {"k": "call", "out": "__f", "fn": "reshape", "a": [R, ["t", [n + 1]]], "sp": rng.choice(["mg", "meth"])}
     if kind == "setitem_shape":
         return {"k": "setitem", "tgt": t, "index": ["e"], "value": badarr}
+    if kind == "setitem_bad_index":   # IndexError (not ValueError) from an in-place statement
+        ix = (shape[0] + 3) if (shape and rng.random() < 0.5) else ["t", [0] * (len(shape) + 1)]
+        return {"k": "setitem", "tgt": t, "index": ix, "value": 1.0}
     if kind == "aug_shape":
         return {"k": "aug", "tgt": t, "op": rng.choice(["+", "*", "-"]), "value": badarr}
     if kind == "readonly_target":
